@@ -250,11 +250,12 @@ const stallOpTimeout = 150 * time.Millisecond
 const plannedTimeout = 200 * time.Millisecond
 
 type sessionOut struct {
-	inputs [][]byte
-	ids    []int
-	obs    map[string]int64
-	tags   map[string]bool
-	wire   int
+	forces, headers []bool // the option values in force at each call
+	inputs          [][]byte
+	ids             []int
+	obs             map[string]int64
+	tags            map[string]bool
+	wire            int
 }
 
 func viol0(c *complaint, pos int, q Req, srv *ncsim.Server) *mon.Result {
@@ -266,7 +267,10 @@ func viol0(c *complaint, pos int, q Req, srv *ncsim.Server) *mon.Result {
 
 // runSession opens one session with the given option values, performs the requests and judges every
 // call on the wire and XML level.
-func runSession(s Session, force, header bool) (*sessionOut, *mon.Result) {
+// forceOff / headerOn pin one option for a twin session: self-closing never forced (flips of that
+// field are skipped) / header always present; the other option follows the descriptor.
+func runSession(s Session, forceOff, headerOn bool) (*sessionOut, *mon.Result) {
+	force, header := s.Force && !forceOff, s.Header || headerOn
 	caps := []string{ncsim.Cap10}
 	if s.Version == "1.1" || s.Via == "preferred" {
 		caps = append(caps, ncsim.Cap11)
@@ -363,6 +367,18 @@ func runSession(s Session, force, header bool) (*sessionOut, *mon.Result) {
 	desync := false
 	resps := make([]*response.NetconfResponse, len(s.Reqs))
 	for i, q := range s.Reqs {
+		if q.SetForce != nil && !forceOff {
+			force = *q.SetForce
+			d.ForceSelfClosingTags = force
+			out.obs["option_field_assignments_after_open"]++
+		}
+		if q.SetHeader != nil && !headerOn {
+			header = *q.SetHeader
+			d.ExcludeHeader = !header
+			out.obs["option_field_assignments_after_open"]++
+		}
+		out.forces = append(out.forces, force)
+		out.headers = append(out.headers, header)
 		var wireBefore, msgsBefore int
 		conn.Do(func() { wireBefore, msgsBefore = len(srv.Wire), len(srv.Msgs) })
 		planned := q.NoAnswer != ""
@@ -749,20 +765,34 @@ func judgeStream(s Session, srv *ncsim.Server, conn *devsim.Conn, resps []*respo
 
 // Run judges one case: the session itself plus the twin sessions that differ in exactly one option.
 func Run(s Session) mon.Result {
-	main, res := runSession(s, s.Force, s.Header)
+	main, res := runSession(s, false, false)
 	if res != nil {
 		return *res
 	}
 	obs := main.obs
 	obs["sessions"] = 1
-	if s.Force {
-		twin, res := runSession(s, false, s.Header)
+	anyForce, anyNoHeader := s.Force, !s.Header
+	for _, q := range s.Reqs {
+		anyForce = anyForce || (q.SetForce != nil && *q.SetForce)
+		anyNoHeader = anyNoHeader || (q.SetHeader != nil && !*q.SetHeader)
+	}
+	if anyForce && main.inputs != nil {
+		twin, res := runSession(s, true, false)
 		if res != nil {
 			res.Detail = "twin session without forced self-closing tags: " + res.Detail
 			return *res
 		}
 		obs["twin_sessions"]++
 		for i := range s.Reqs {
+			if !main.forces[i] {
+				// self-closing not forced at this call: the request must be byte-identical to the twin's
+				if !bytes.Equal(twin.inputs[i], main.inputs[i]) {
+					d := firstDiff(twin.inputs[i], main.inputs[i])
+					return *viol0(bad("c03/self-closing:forced-although-switched-off", "ForceSelfClosingTags is false at this call, yet Input differs from the never-forced twin at offset %d: %s vs twin %s",
+						d, around(main.inputs[i], d), around(twin.inputs[i], d)), i, s.Reqs[i], &ncsim.Server{})
+				}
+				continue
+			}
 			rw, kept, c := checkRewrite(twin.inputs[i], main.inputs[i])
 			if c != nil {
 				if s.Hazard != "" {
@@ -780,14 +810,22 @@ func Run(s Session) mon.Result {
 			}
 		}
 	}
-	if !s.Header {
-		twin, res := runSession(s, s.Force, true)
+	if anyNoHeader && main.inputs != nil {
+		twin, res := runSession(s, false, true)
 		if res != nil {
 			res.Detail = "twin session with header: " + res.Detail
 			return *res
 		}
 		obs["twin_sessions"]++
 		for i := range s.Reqs {
+			if main.headers[i] {
+				if !bytes.Equal(twin.inputs[i], main.inputs[i]) {
+					d := firstDiff(twin.inputs[i], main.inputs[i])
+					return *viol0(bad("c03/header:differs-from-twin-with-header", "ExcludeHeader is false at this call, yet Input differs from the always-with-header twin at offset %d: %s vs twin %s",
+						d, around(main.inputs[i], d), around(twin.inputs[i], d)), i, s.Reqs[i], &ncsim.Server{})
+				}
+				continue
+			}
 			if c := checkHeaderTwin(twin.inputs[i], main.inputs[i]); c != nil {
 				return *viol0(c, i, s.Reqs[i], &ncsim.Server{})
 			}
